@@ -1,10 +1,12 @@
-SPECIFICATION Spec
+SPECIFICATION WitSpec
 CONSTANTS
   Readers = {"r1", "r2"}
   XE = {"E1", "E2"}
   XT = {"Tda", "Tp"}
   MaxMut = 3
-  MaxRead = 3
+  MaxRead = 2
 CONSTANT XU <- URIs3
 INVARIANTS DefsAgree TypeOK Linearizable BoundInWindow GensDistinct NeverServedByUnregistered ExactBeatsTemplates ExactServesOwnURI
+CONSTRAINT WitMark
+POSTCONDITION WitAll
 CHECK_DEADLOCK FALSE
